@@ -209,6 +209,20 @@ Proof.
   - repeat split; auto; [rewrite firstn_length; lia|rewrite firstn_length, skipn_length; lia].
 Qed.
 
+(* what the slice assignment leaves behind (R tt outcome) *)
+Definition slice_eval_post (h : heap) (x : id) (nx : node) (a b stp : option Z) (vals : list id) : Prop :=
+  let cs := children nx in
+  exists h' new,
+    node_setitem_slice x a b stp vals h = (h', R tt) /\ length h' = length h /\
+    get h' x = Some (set_children new nx) /\
+    (forall y n, y <> x -> get h y = Some n -> exists n', get h' y = Some n' /\ lnk n n') /\
+    (forall y, y <> x -> ~ In y vals -> ~ In y cs -> get h' y = get h y) /\
+    (forall i c, nth_error new i = Some c ->
+       exists n', get h' c = Some n' /\ parent n' = Some x /\ pidx n' = Some (Z.of_nat i)) /\
+    (forall c, In c new -> In c cs \/ In c vals) /\ (forall v, In v vals -> In v new) /\ NoDup new /\ ~ In x new /\
+    ((a = None /\ b = None /\ (stp = None \/ stp = Some 1%Z)) -> new = vals) /\
+    (forall y n, y <> x -> ~ In y new -> get h y = Some n -> parent n <> Some x -> get h' y = get h y).
+
 (* ---- Node.__setitem__ with a simple slice -------------------------------------------------------------------------------------------------- *)
 Section SimpleSlice.
   Variables (h : heap) (x : id) (nx : node) (a b stp : option Z) (vals : list id).
@@ -225,17 +239,9 @@ Section SimpleSlice.
   Hypothesis Lv : forall c, In c vals -> exists n, get h c = Some n.
   Hypothesis DJ : (forall v, In v vals -> ~ In v cs) \/ (a = None /\ b = None).
 
-  Lemma setitem_simple_eval : exists h' new,
-    node_setitem_slice x a b stp vals h = (h', R tt) /\ length h' = length h /\
-    get h' x = Some (set_children new nx) /\
-    (forall y n, y <> x -> get h y = Some n -> exists n', get h' y = Some n' /\ lnk n n') /\
-    (forall y, y <> x -> ~ In y vals -> ~ In y cs -> get h' y = get h y) /\
-    (forall i c, nth_error new i = Some c ->
-       exists n', get h' c = Some n' /\ parent n' = Some x /\ pidx n' = Some (Z.of_nat i)) /\
-    (forall c, In c new -> In c cs \/ In c vals) /\ (forall v, In v vals -> In v new) /\ NoDup new /\ ~ In x new /\
-    ((a = None /\ b = None) -> new = vals) /\
-    (forall y n, y <> x -> ~ In y new -> get h y = Some n -> parent n <> Some x -> get h' y = get h y).
+  Lemma setitem_simple_eval : slice_eval_post h x nx a b stp vals.
   Proof.
+    unfold slice_eval_post. fold cs.
     set (len := Z.of_nat (length cs)).
     destruct (slice_indices_simple a b stp len ST) as (s & e & SI & Rs & Re & Sa & Sb); [unfold len; lia|].
     set (sn := Z.to_nat s). set (en := Z.to_nat (Z.max s e)).
@@ -381,7 +387,7 @@ Section SimpleSlice.
     split.
     { intros v Hv. unfold new. apply in_or_app; right; apply in_or_app; now left. }
     split; auto. split; auto. split.
-    { intros F. destruct (FULL F) as (-> & ->). unfold new. cbn. apply app_nil_r. }
+    { intros (F1 & F2 & _). destruct (FULL (conj F1 F2)) as (-> & ->). unfold new. cbn. apply app_nil_r. }
     intros y n N NIy G P.
     assert (NVy : ~ In y vals) by (intros Hv; apply NIy; unfold new; apply in_or_app; right; apply in_or_app; now left).
     assert (G3 : get h3 y = get h y) by (rewrite O3 by auto; rewrite O2 by auto; apply O1; auto).
@@ -423,36 +429,26 @@ Section SetSlice.
   Hypothesis I0 : Inv h r.
   Hypothesis Rx : reach h r x.
   Hypothesis Gx : get h x = Some nx.
-  Hypothesis ST : stp = None \/ stp = Some 1%Z.
+  Hypothesis EV : slice_eval_post h x nx a b stp vals.
   Hypothesis V1 : NoDup vals.
   Hypothesis V2 : forall v, In v vals -> LI h v (fun _ => False).
   Hypothesis V3 : forall v y, In v vals -> reach h v y -> y <> x /\ (y <> v -> ~ In y vals /\ ~ In y cs).
   Hypothesis V4 : forall v, In v vals -> reach h r v -> reach h x v.
-  Hypothesis V5 : (a = None /\ b = None) \/ (forall c y, In c cs -> reach h c y -> ~ In y vals).
+  Hypothesis V5 : (a = None /\ b = None /\ (stp = None \/ stp = Some 1%Z)) \/ (forall c y, In c cs -> reach h c y -> ~ In y vals).
 
-  Lemma setslice_inv h' res :
+  Lemma setslice_inv_gen h' res :
     loop_setitem_slice x a b stp vals h = (h', res) -> ok_result res ->
     Inv h' r /\ res = R tt /\ reach h' r x /\ length h' = length h /\
     exists new c', get h' x = Some (set_cache c' (set_children new nx)) /\
       (forall c, In c new -> In c cs \/ In c vals) /\ (forall v, In v vals -> In v new) /\
-      ((a = None /\ b = None) -> new = vals) /\
+      ((a = None /\ b = None /\ (stp = None \/ stp = Some 1%Z)) -> new = vals) /\
       (forall y n, y <> x -> get h y = Some n -> exists n', get h' y = Some n' /\ rdf n' = rdf n /\ wform n' = wform n /\
                                                   meas n' = meas n /\ children n' = children n) /\
       (forall y, reach h r y -> ~ reach h x y -> exists n n', get h y = Some n /\ get h' y = Some n' /\ n' = set_cache (cache n') n).
   Proof.
     intros H OK.
     assert (NIc : ~ In x cs) by (intros HIn; eapply (rp_x_not_own_child h r x nx I0 Rx Gx); eauto).
-    assert (NIv : ~ In x vals) by (intros HIn; destruct (V3 x x HIn (reach_refl _ _)) as (N & _); congruence).
-    assert (NDc : NoDup cs) by (eapply (children_NoDup _ _ _ I0); eauto).
-    assert (Lc : forall i c, nth_error cs i = Some c ->
-              exists n, get h c = Some n /\ ((a = None /\ b = None) \/ (parent n = Some x /\ pidx n = Some (Z.of_nat i)))).
-    { intros i c N. destruct (inv_links _ _ _ I0 _ _ _ _ Rx Gx N) as (n & G & P & I). eauto. }
-    assert (Lv : forall c, In c vals -> exists n, get h c = Some n).
-    { intros c HIn. eapply LI_live; [apply (V2 c HIn)|constructor]. }
-    assert (DJ : (forall v, In v vals -> ~ In v cs) \/ (a = None /\ b = None)).
-    { destruct V5 as [F|S]; [now right|left]. intros v Hv Hc. apply (S v v Hc (reach_refl _ _) Hv). }
-    destruct (setitem_simple_eval h x nx a b stp vals ST Gx NIc NIv NDc V1 Lc Lv DJ)
-      as (h1 & new & E1 & Len1 & G1 & LK & SAME & POS & MEM & VIN & NDn & NIn & FULL & _).
+    destruct EV as (h1 & new & E1 & Len1 & G1 & LK & SAME & POS & MEM & VIN & NDn & NIn & FULL & _).
     unfold loop_setitem_slice in H. rewrite (bind_R _ _ _ _ _ E1) in H.
     (* the subtree at x after the assignment *)
     assert (LX : LI h1 x (fun y => y = x)).
@@ -506,3 +502,35 @@ Section SetSlice.
       destruct (cache_only_get _ _ _ _ CO G) as (n' & G' & E'). rewrite (OUT y Ry NR) in G. eauto.
   Qed.
 End SetSlice.
+
+Lemma setslice_inv h r x nx a b stp vals :
+  Inv h r -> reach h r x -> get h x = Some nx -> (stp = None \/ stp = Some 1%Z) -> NoDup vals ->
+  (forall v, In v vals -> LI h v (fun _ => False)) ->
+  (forall v y, In v vals -> reach h v y -> y <> x /\ (y <> v -> ~ In y vals /\ ~ In y (children nx))) ->
+  (forall v, In v vals -> reach h r v -> reach h x v) ->
+  ((a = None /\ b = None) \/ (forall c y, In c (children nx) -> reach h c y -> ~ In y vals)) ->
+  forall h' res, loop_setitem_slice x a b stp vals h = (h', res) -> ok_result res ->
+    Inv h' r /\ res = R tt /\ reach h' r x /\ length h' = length h /\
+    exists new c', get h' x = Some (set_cache c' (set_children new nx)) /\
+      (forall c, In c new -> In c (children nx) \/ In c vals) /\ (forall v, In v vals -> In v new) /\
+      ((a = None /\ b = None) -> new = vals) /\
+      (forall y n, y <> x -> get h y = Some n -> exists n', get h' y = Some n' /\ rdf n' = rdf n /\ wform n' = wform n /\
+                                                  meas n' = meas n /\ children n' = children n) /\
+      (forall y, reach h r y -> ~ reach h x y -> exists n n', get h y = Some n /\ get h' y = Some n' /\ n' = set_cache (cache n') n).
+Proof.
+  intros I0 Rx Gx ST V1 V2 V3 V4 V5 h' res H OK.
+  assert (EV : slice_eval_post h x nx a b stp vals).
+  { assert (NIc : ~ In x (children nx)) by (intros HIn; eapply (rp_x_not_own_child h r x nx I0 Rx Gx); eauto).
+    assert (NIv : ~ In x vals) by (intros HIn; destruct (V3 x x HIn (reach_refl _ _)) as (N & _); congruence).
+    assert (NDc : NoDup (children nx)) by (eapply (children_NoDup _ _ _ I0); eauto).
+    apply setitem_simple_eval; auto.
+    - intros i c N. destruct (inv_links _ _ _ I0 _ _ _ _ Rx Gx N) as (n & G & P & I). eauto.
+    - intros c HIn. eapply LI_live; [apply (V2 c HIn)|constructor].
+    - destruct V5 as [F|S]; [now right|left]. intros v Hv Hc. apply (S v v Hc (reach_refl _ _) Hv). }
+  assert (V5' : (a = None /\ b = None /\ (stp = None \/ stp = Some 1%Z)) \/ (forall c y, In c (children nx) -> reach h c y -> ~ In y vals))
+    by (destruct V5 as [(F1 & F2)|S]; [left; auto|right; auto]).
+  destruct (setslice_inv_gen h r x nx a b stp vals I0 Rx Gx EV V2 V3 V4 V5' h' res H OK)
+    as (I' & E' & Rx' & L' & new & c' & G' & M' & VI' & F' & K' & O').
+  split; auto. split; auto. split; auto. split; auto. exists new, c'.
+  split; auto. split; auto. split; auto. split; [intros (F1 & F2); apply F'; auto|]. split; auto.
+Qed.
